@@ -171,7 +171,11 @@ static int parse_set(AsmContext *asm_context)
 #endif
 
   // REVIEW - should num be divided by bytes_per_address for dsPIC and avr8?
-  asm_context->symbols.set(name, num);
+  if (asm_context->symbols.set(name, num) != 0)
+  {
+    print_error(asm_context, "set: symbol is a label and cannot be changed");
+    return -1;
+  }
 
   //asm_context->tokens.line++;
 
